@@ -102,6 +102,11 @@ double dur_of(int64_t code);
 /* priority codes: small integers are themselves; 1000001 = INT64_MAX, -1000001 = INT64_MIN */
 int64_t prio_of(int64_t code);
 
+/* libstate.c */
+int libstate_ranges(void);
+void libstate_snapshot(void);
+const char *libstate_changed(size_t *offset);
+
 void die(const char *fmt, ...) __attribute__((noreturn, format(printf,1,2)));
 
 #endif
